@@ -212,6 +212,50 @@ static std::string obs_preds(Position& p)
     return o.str();
 }
 
+// ---- C15: classification of every legal move: uci:<quiet><capture><check> ----
+static std::string obs_classify(Position& p)
+{
+    std::vector<std::string> v;
+    for (Move m : gen_moves(p))
+    {
+        std::string s = p.uci(m) + ":";
+        s += p.move_is_quiet(m) ? "1" : "0";
+        s += p.move_is_capture(m) ? "1" : "0";
+        s += p.move_gives_check(m) ? "1" : "0";
+        v.push_back(s);
+    }
+    std::sort(v.begin(), v.end());
+    return join(v);
+}
+
+// ---- C17: SAN of every legal move and whether parse_san gives the move back ----
+static std::string obs_san(Position& p)
+{
+    std::vector<std::string> v;
+    for (Move m : gen_moves(p))
+    {
+        std::string s = p.san(m);
+        Move m2 = p.parse_san(s);
+        v.push_back(p.uci(m) + ":" + s + ":" + (m2 == m ? "1" : "0"));
+    }
+    std::sort(v.begin(), v.end());
+    return join(v);
+}
+
+// san_parse <fen> | s1 s2 ...  : foreign SAN strings, result as uci or "-"
+static std::string op_san_parse(std::istringstream& is)
+{
+    GameCase g = parse_game(is);
+    Position p(g.fen);
+    std::vector<std::string> v;
+    for (const std::string& s : g.moves)
+    {
+        Move m = p.parse_san(s);
+        v.push_back(m == NO_MOVE ? "-" : p.uci(m));
+    }
+    return join(v);
+}
+
 static std::string dispatch_more(const std::string& op, std::istringstream& is)
 {
     if (op == "g_legal") return run_game(is, obs_legal);
@@ -222,6 +266,9 @@ static std::string dispatch_more(const std::string& op, std::istringstream& is)
     if (op == "walk") return op_walk(is);
     if (op == "walkx") return op_walk_gen(is, obs_full);
     if (op == "g_key") return run_game(is, obs_key);
+    if (op == "g_san") return run_game(is, obs_san);
+    if (op == "san_parse") return op_san_parse(is);
+    if (op == "g_classify" || op == "g_classify_alg") return run_game(is, obs_classify);
     if (op == "g_preds") return run_game(is, obs_preds);
     return "UNKNOWN-OP " + op;
 }
